@@ -282,11 +282,11 @@ BADW = {'inf', 'nan', 'infinity', 'nil'}
 
 def vocab(specs):
     from . import model, histgen
-    from .props.c07 import decode, enum_candidates, descs
+    from .protoxml import decode, enum_candidates
     P = histgen.protocols()
-    V = {k: set() for k in ('conn', 'type', 'id', 'idgen', 'name', 'argname', 'int', 'float', 'str', 'label')}
+    V = {k: set() for k in ('conn', 'type', 'id', 'idgen', 'name', 'argname', 'int', 'float', 'str', 'label', 'label2')}
     W = model.MWorld()
-    _, winners = descs()
+    winners = histgen.winners_map()
     for m in specs:
         rec = W.step(m)
         V['conn'].add(rec['conn'].name)
@@ -302,9 +302,12 @@ def vocab(specs):
                 V['int'].add(v)
                 if pa is not None and pa.enum:
                     for e in enum_candidates(P[t.iface], pa.enum, winners):
-                        for l in decode(e, v):
+                        ls = decode(e, v)
+                        for k, l in enumerate(ls):
                             if re.fullmatch(r'[\-_A-Za-z0-9]+', l) and not l[0].isdigit():
                                 V['label'].add(l)
+                                if k >= 1:
+                                    V['label2'].add(l)      # non-first label of a multi-label value
             elif a[0] == 'fixed': V['float'].add(a[1] / 256.0)
             elif a[0] == 'str' and a[1] is not None: V['str'].add(a[1])
             elif a[0] == 'obj' and a[2] is None and a[1]: V['type'].add(a[1])
@@ -326,7 +329,8 @@ def letters(n):
 
 
 class Gen:
-    def __init__(self, d, V, max_depth=2):
+    def __init__(self, d, V, max_depth=2, focus=None):
+        self.focus = focus
         self.d = d
         self.V = V
         self.max_depth = max_depth
@@ -335,10 +339,20 @@ class Gen:
         d = self.d
         src = (self.V.get(pool) or extra) if d.chance(0.8) else extra
         w = str(d.choice(src))
-        if d.chance(0.25) and len(w) > 1:
+        if d.chance(0.3) and len(w) > 2:
+            mode = d.int(0, 3)
+            if mode == 1:       # near miss: matches a proper prefix of a vocabulary word only
+                w = w[:d.int(2, len(w) - 1)]
+            elif mode == 2:     # near miss: matches a proper suffix only
+                w = w[d.int(1, len(w) - 2):]
+            if mode == 3 and d.chance(0.5):
+                pass            # plain proper prefix/suffix without a wildcard
             i = d.int(0, len(w) - 1)
             j = d.int(i, len(w))
-            w = w[:i] + '*' + w[j:]
+            if not (mode == 3):
+                w = w[:i] + '*' + w[j:]
+            else:
+                w = w[:max(1, len(w) - d.int(1, 3))]
         if w.lower() in BADW or w == '*' or not re.fullmatch(r'[\*\-_A-Za-z0-9]+', w) or w[0].isdigit() or w[0] == '-':
             w = 'wl_x'
         return ['id', w]
@@ -371,6 +385,8 @@ class Gen:
         if depth < self.max_depth and d.chance(0.15):
             return self.lst(self.val, depth)
         k = d.int(0, 4)
+        if self.focus == 'args' and self.V.get('label') and d.chance(0.5):
+            k = 3
         if k == 0:
             return ['int', d.choice(self.V.get('int', []) + [0, 1, 5] + self.V['id'])]
         if k == 1:
@@ -379,7 +395,10 @@ class Gen:
             ok = [x for x in self.V.get('str', []) if not set(x) & set('"()[]\t,!') and x == x.strip() and x]
             return ['str', d.choice(ok + ['zz'])]
         if k == 3:
-            return ['word', self.ident(d.choice(['label', 'type']), ['pressed', 'wl_buffer'])[1]]
+            pool = 'label' if (self.V.get('label') and d.chance(0.65)) else 'type'
+            if pool == 'label' and self.V.get('label2') and d.chance(0.5):
+                pool = 'label2'
+            return ['word', self.ident(pool, ['pressed', 'wl_buffer'])[1]]
         return ['nil']
 
     def arg(self, depth=0):
@@ -391,8 +410,20 @@ class Gen:
         v = self.val(depth) if k != 1 else None
         return ['arg', name, v]
 
+    def arg_pattern(self):
+        """argument-focused pattern: [type][.name](items ! items) with label words and name= items"""
+        d = self.d
+        obj = ['type', self.ident('type', ['wl_seat'])[1]] if d.chance(0.3) else None
+        name = self.text('name', ['capabilities']) if d.chance(0.3) else None
+        args = [[self.arg() for _ in range(d.int(0, 2))], [self.arg() for _ in range(d.int(0, 1))]]
+        if not args[0] and not args[1]:
+            args = [[self.arg()], []]
+        return ['msg', None, obj, name, args]
+
     def pattern(self):
         d = self.d
+        if self.focus == 'args' and d.chance(0.7):
+            return self.arg_pattern()
         k = d.int(0, 19)
         if k == 0:
             return ['star']
